@@ -65,6 +65,14 @@ CHECKS.update({
             "DESIGN.md section 5 C08"),
 })
 
+CHECKS.update({
+    "C01": ("translation_validation",
+            "product-program symbolic execution (symx/z3): real NumpyInterpreter, real generated Python class and a reference executor run in one path on a shared symbolic initial state; per event/persistent variable a z3 validity query; programs enumerated (curated + bounded-exhaustive small + seeded random)",
+            "Three-way translation validation per program: interpreter == generated Python == program order, for all integer initial states, all results of user functions/built-ins (uninterpreted), bounded by K=3 steps (thorough 4) and 24 events, run under max_steps and under a symbolic end time. Programs are enumerated, data is solver-decided.",
+            "Trusted: z3, symx proxies, RefProgram (vf/refprog.py, works on the JSON DSL, independent of dagrt/pymbolic). Outside: int-vs-float result types, division by zero, IEEE rounding, programs outside the validity predicate; explorations that hit the path/wall budget are counted incomplete.",
+            "DESIGN.md section 5 C01"),
+})
+
 NOT_APPLICABLE = {
 }
 
